@@ -24,6 +24,7 @@ def cli (j : Json) : Json :=
   let exit := J.int (J.get j "exit")
   let (ok, note) : Bool × String :=
     if exit == -1 then (false, "the runner did not terminate")
+    else if J.bool (J.get j "crashed") then (false, s!"the runner crashed: {(J.str (J.get j "stderr_tail")).take 200}")
     else if noinput then
       (if printed == "" then (true, "") else (false, "output printed although no input file was given"))
     else if libErr != "" then
